@@ -32,7 +32,7 @@ func runC13(c *fw.Ctx) {
 				k := g.Key(keys)
 				v, w := g.Value()
 				c.Tracef("upd %s=%s", wl.KeyStr(k), v)
-				if err := t.Update(k, v, w); err != nil {
+				if err := wl.Upd(t, k, v, w); err != nil {
 					fail("", "Update failed: %v", err)
 					return false
 				}
@@ -42,7 +42,7 @@ func runC13(c *fw.Ctx) {
 				k := keys[r.Intn(len(keys))]
 				v, w := g.Value()
 				c.Tracef("change %s=%s", wl.KeyStr([]byte(k)), v)
-				if err := t.Update([]byte(k), v, w); err != nil {
+				if err := wl.Upd(t, []byte(k), v, w); err != nil {
 					fail("", "Update failed: %v", err)
 					return false
 				}
@@ -51,7 +51,7 @@ func runC13(c *fw.Ctx) {
 			case x < 9:
 				k := keys[r.Intn(len(keys))]
 				c.Tracef("del %s", wl.KeyStr([]byte(k)))
-				if err := t.Update([]byte(k), nil, 0); err != nil {
+				if err := wl.Upd(t, []byte(k), nil, 0); err != nil {
 					fail("", "delete failed: %v", err)
 					return false
 				}
@@ -61,7 +61,7 @@ func runC13(c *fw.Ctx) {
 				k := keys[r.Intn(len(keys))]
 				e := m[k]
 				c.Tracef("rewrite-unchanged %s", wl.KeyStr([]byte(k)))
-				if err := t.Update([]byte(k), e.Val, e.W); err != nil {
+				if err := wl.Upd(t, []byte(k), e.Val, e.W); err != nil {
 					fail("", "Update failed: %v", err)
 					return false
 				}
@@ -70,11 +70,11 @@ func runC13(c *fw.Ctx) {
 				k := keys[r.Intn(len(keys))]
 				e := m[k]
 				c.Tracef("del+re-add %s", wl.KeyStr([]byte(k)))
-				if err := t.Update([]byte(k), nil, 0); err != nil {
+				if err := wl.Upd(t, []byte(k), nil, 0); err != nil {
 					fail("", "delete failed: %v", err)
 					return false
 				}
-				if err := t.Update([]byte(k), e.Val, e.W); err != nil {
+				if err := wl.Upd(t, []byte(k), e.Val, e.W); err != nil {
 					fail("", "Update failed: %v", err)
 					return false
 				}
@@ -131,7 +131,7 @@ func runC13(c *fw.Ctx) {
 			if r.Intn(2) == 0 {
 				absent := g.Key(nil)
 				if _, ok := m[string(absent)]; !ok {
-					_ = t.Update(absent, nil, 0)
+					_ = wl.Upd(t, absent, nil, 0)
 				}
 			}
 			c.Tracef("commit(%d) again with nothing to write", lvl)
@@ -214,7 +214,7 @@ func runC13(c *fw.Ctx) {
 			t.SaveRoot()
 			for _, k := range cm.Keys() {
 				if _, ok := target[k]; !ok {
-					if err := t.Update([]byte(k), nil, 0); err != nil {
+					if err := wl.Upd(t, []byte(k), nil, 0); err != nil {
 						fail("", "retry: delete failed: %v", err)
 						return
 					}
@@ -222,7 +222,7 @@ func runC13(c *fw.Ctx) {
 			}
 			for _, k := range target.Keys() {
 				if e, ok := cm[k]; !ok || string(e.Val) != string(target[k].Val) {
-					if err := t.Update([]byte(k), target[k].Val, target[k].W); err != nil {
+					if err := wl.Upd(t, []byte(k), target[k].Val, target[k].W); err != nil {
 						fail("", "retry: update failed: %v", err)
 						return
 					}
